@@ -992,8 +992,6 @@ def float_case(vec, rng, pid='C01'):
                 key = f'{pid}/float/value/{method}/{inp["mode"]}/{_desc_name(inp)}'
                 if inp['rm'] and inp['mode'] == 'list':
                     key = f'{pid}/e/remove_mean-ignored/{inp["mode"]}/{method}'
-                if method == 'poisson_cv':
-                    key = f'{pid}/c/poisson_cv/last-fold-only'
                 return [(key, 'value on real-valued data differs from the array-form kernel',
                          {'in': inp, 'flavour': fl, 'got': float(g), 'expected': float(e), 'pair': [out['lab'][p], out['lab'][q]]})]
     return []
